@@ -66,7 +66,7 @@ theorem DOk.xexpr_pure {e : Expr} {loc : Env} {d : DSt} {v : Val} {out : List Ev
 theorem DOk.xexpr_call {f args} {loc : Env} {d d' : DSt} {o : List Event} {fv vs m scope}
     (hfv : eval (dlook loc d) f = .ok fv)
     (hvs : evalArgs (dlook loc d) args = .ok vs) (hm : getDMacro d fv = .ok m)
-    (hsc : bindParams m.params vs = .ok scope)
+    (hsc : bindParams (dlook loc d) m.params vs = .ok scope)
     (h : DOk (.dirs m.dirs m.target) (scope ++ loc) d o d') :
     DOk (.xexpr (.call f args)) loc d o d' := by
   obtain ⟨n, h⟩ := h
